@@ -422,15 +422,30 @@ def run_impl(hist, cap=1):
                             evs_here.append(tail_msg[1])
                         ct, tail, tail_msg = tail, b"", None
                         msgs = msgs[1:]
+                    fr = ev[2] if len(ev) > 2 else 0
+                    pts = []
                     for (mk, mn) in msgs:
                         if mn % 10 in (1, 6):
-                            ct += ep.seal(_msg_chunked(mk, mn))      # delivered whole, chunked encoding
+                            pts.append(_msg_chunked(mk, mn))         # delivered whole, chunked encoding
                         else:
                             h, b = _msg_bytes(mk, mn)
-                            ct += ep.seal(h + b)
+                            pts.append(h + b)
                         assign(mk, mn, is_open)
                         if mk == "E":
                             evs_here.append(mn)
+                    if fr == 0 or not pts:
+                        for pt in pts:                               # every message in encrypted frame(s) of its own
+                            ct += ep.seal(pt)
+                    elif fr == 1:
+                        ct += ep.seal(b"".join(pts))                 # ALL messages of the read inside ONE encrypted frame
+                    else:
+                        # frame boundary inside the last message: frame 1 = the messages before it + its first half
+                        # (fr 2) / + its header block (fr 3), frame 2 = the rest; still one read
+                        pt = b"".join(pts)
+                        last = pts[-1]
+                        cutp = len(pt) - len(last) + (len(last) // 2 if fr == 2 else last.index(b"\r\n\r\n") + 4)
+                        cutp = max(1, min(len(pt) - 1, cutp))
+                        ct += ep.seal(pt[:cutp]) + ep.seal(pt[cutp:])
                     if ct:
                         tr.peer_send(ct)
                     raised = len(loop.errors) > nerr
@@ -481,6 +496,25 @@ def run_impl(hist, cap=1):
                     h, b = _msg_bytes("H", ev[2])
                     assign("H", ev[2], is_open)
                     tr.peer_send(ep.seal(h + b))
+                elif k == "TC":
+                    # SAME loop turn: virtual time reaches now+dt (the tick at which request r's 30 s response timer is
+                    # due) and the caller's task is cancelled in the very iteration in which that timer fires, AFTER it
+                    # (an application deadline of the same length): the future is done (TimeoutError) and not
+                    # cancelled, Task.cancel() only sets must-cancel, _send_lines sees CancelledError.
+                    t = tasks.get(ev[1])
+
+                    def fire(t=t):
+                        if t is None:
+                            return
+                        fw = getattr(t, "_fut_waiter", None)
+                        due = [h for h in loop._ready if getattr(h._callback, "__name__", "") == "_handle_timeout"
+                               and not h._cancelled]
+                        if due and fw is not None and not fw.done():
+                            loop.call_soon(t.cancel)      # runs after r's due response timer, before the task it wakes
+                        else:
+                            t.cancel()                    # r's timer has already fired in this iteration (or is not due)
+                    loop.call_at(loop.time() + ev[2] / 4096, fire)
+                    await vloop.sleep_ticks(ev[2])
                 elif k == "A":
                     await vloop.sleep_ticks(ev[1])
                 elif k == "PC":
@@ -593,8 +627,9 @@ def oracle(hist, res, cap=None):
                                                                     raised=False, now=None))]
     for i, (ev, stp) in enumerate(all_steps):
         was_abandoned = abandoned
-        cancel_inflight = ev[0] in ("C", "CD") and ev[1] in wrote and ev[1] not in done
+        cancel_inflight = ev[0] in ("C", "CD", "TC") and ev[1] in wrote and ev[1] not in done
         pending_written_before = {r: wt for r, wt in wrote.items() if r not in done}
+        tainted_before = tainted
         if ev[0] == "I" and i < len(hist):
             issued += 1
         for t in stp["out"]:
@@ -641,17 +676,32 @@ def oracle(hist, res, cap=None):
             elif t[0] == "o":
                 epoch += 1                      # reconnected: a new connection epoch
                 abandoned = was_abandoned = tainted = False
-            elif t[0] == "x" and i < len(hist) and ev[0] == "A" and pending_written_before:
+            elif t[0] == "x" and i < len(hist) and ev[0] in ("A", "TC") and pending_written_before:
                 due = min(pending_written_before.values()) + T30
                 if int(t[2:]) != due and stp["now"] >= due:
                     bad.append(("timeout-at-wrong-tick",
                                 f"step {i}: the connection was abandoned at tick {t[2:]}, the oldest request's 30 s timer was due at {due}"))
+        if (i < len(hist) and ev[0] == "D" and not was_abandoned and not tainted_before
+                and all(m[0] == "E" or (m[0] == "H" and intended.get(m[1]) is not None) for m in ev[1])):
+            # one read of well-formed messages on a live, in-step connection: every response the accessory sent for a
+            # still outstanding request must complete exactly that request in this very step (however the messages
+            # are packed into encrypted frames)
+            outs = set(stp["out"])
+            for m in ev[1]:
+                if m[0] == "H":
+                    r = intended[m[1]]
+                    if r in pending_written_before and not any(
+                            t.startswith("d%d:resp%d@" % (r, m[1])) for t in outs):
+                        bad.append(("response-lost",
+                                    f"step {i}: the accessory's response {m[1]} to request {r} was read completely on the live "
+                                    f"connection but request {r} did not complete with it in that step "
+                                    f"(outputs {sorted(outs)})"))
         if stp["closing"]:
             abandoned = True
         if i < len(hist) and abandoned and not was_abandoned:
             k = ev[0]
             legit = (k in ("PC", "PE", "LC") or cancel_inflight
-                     or (k == "A" and any(stp["now"] >= wt + T30 for wt in pending_written_before.values()))
+                     or (k in ("A", "TC") and any(stp["now"] >= wt + T30 for wt in pending_written_before.values()))
                      or (k == "D" and (tainted or any(m[0] == "O" or (m[0] == "H" and intended.get(m[1]) is None)
                                                       for m in ev[1])))
                      or (k == "F" and (tainted or any(m[0] == "O" or (m[0] == "H" and intended.get(m[1]) is None)
@@ -734,6 +784,8 @@ def ev_tok(ev):
         return "LC"
     if k == "CD":
         return "C%d D:H%d" % (ev[1], ev[2])     # two model steps, merged again by parse_model_h
+    if k == "TC":
+        return "A%d C%d" % (ev[2], ev[1])       # two model steps (Advance to the timer, Cancel r), merged again
     return k          # I F PC PE R LL
 
 
@@ -744,11 +796,16 @@ def model_line(cap, hist):
 def parse_model_h(ans, hist):
     """parse the driver's answer for model_line(cap, hist); a same-turn event (CD) is two model steps whose outputs
     are merged into one harness step"""
-    groups = [2 if e[0] == "CD" else 1 for e in hist]
+    groups = [2 if e[0] in ("CD", "TC") else 1 for e in hist]
     steps, state = parse_model(ans, sum(groups))
     out, j = [], 0
-    for g in groups:
-        out.append([t for st in steps[j:j + g] for t in st])
+    for e, g in zip(hist, groups):
+        merged = [t for st in steps[j:j + g] for t in st]
+        if e[0] == "TC":
+            # the caller whose timer fired and who was cancelled in the same turn sees CancelledError, not the
+            # disconnection error (C08 does not say which of the two); everything else is Advance-then-Cancel
+            merged = [("d%d:canc@" % e[1] + t.split("@")[1]) if t.startswith("d%d:" % e[1]) else t for t in merged]
+        out.append(merged)
         j += g
     return out, state
 
@@ -761,6 +818,7 @@ def parse_model(ans, nsteps):
     d = dict(kv.split("=") for kv in st.split(" "))
     state = dict(open=d["open"] == "1", clock=int(d["clock"]), next=int(d["next"]), epoch=int(d.get("epoch", 0)),
                  infl=[int(x.split(":")[0]) for x in d["infl"].split(",") if x],
+                 infl_t=[int(x.split(":")[1]) for x in d["infl"].split(",") if x],
                  wait=[int(x) for x in d["wait"].split(",") if x])
     return steps, state
 
@@ -768,7 +826,7 @@ def parse_model(ans, nsteps):
 # ------------------------------------------------------------------------------------------------
 # generators
 # ------------------------------------------------------------------------------------------------
-def gen_exhaustive(drv, cap, depth, rich, max_issue, max_frag, start=None, closing=None, unsent=True):
+def gen_exhaustive(drv, cap, depth, rich, max_issue, max_frag, start=None, closing=None, unsent=True, tc=True):
     """All histories of `depth` events over the state-dependent alphabet (see notes/C08.md), enumerated
     breadth first; the model state after each prefix (from the driver) only decides which letters are
     enabled: after the transport is closed at most two more events from {I, D[H], A(30 s)} are explored
@@ -813,6 +871,12 @@ def gen_exhaustive(drv, cap, depth, rich, max_issue, max_frag, start=None, closi
                     letters.append(["C", r])
                 if cap >= 2 and st["infl"]:
                     letters.append(["CD", st["infl"][0], 10 * i])     # oldest in-flight cancelled + its response, same turn
+                if st["infl"] and tc:
+                    # the oldest in-flight request's 30 s timer fires and its caller is cancelled in the same loop turn
+                    letters.append(["TC", st["infl"][0], st["infl_t"][0] + T30 - st["clock"]])
+                if rich:
+                    letters.append(["D", [["E", 10 * i], ["H", 10 * i + 2]], 1])      # both in ONE encrypted frame
+                    letters.append(["D", [["E", 10 * i], ["H", 10 * i + 2]], 2])      # frame boundary inside the response
                 comp = [r for r in range(st["next"]) if r not in pend]
                 if comp:
                     letters.append(["C", comp[0]])
@@ -868,6 +932,51 @@ def gen_chunk_cuts():
     return out
 
 
+def gen_frames():
+    """how the messages of ONE read are packed into encrypted frames (= the pieces handed to the HTTP layer): fr 0 a
+    frame per message, 1 everything in one frame, 2 / 3 a frame boundary in the middle of / after the header block of
+    the last message -- for every short message sequence, with a request outstanding, queued, or none, and more
+    traffic afterwards on the same connection (a dropped or shifted message shows on the NEXT request at the latest)"""
+    out = []
+    seqs = [["H"], ["E"], ["E", "H"], ["H", "E"], ["E", "E"], ["E", "E", "H"], ["E", "H", "E"], ["H", "H"], ["E", "H", "H"],
+            ["H", "E", "H"], ["E", "E", "E", "H"]]
+    for fr in (0, 1, 2, 3):
+        for q in seqs:
+            for base in (20, 21):          # 21: serials = 1, 6 (mod 10) are sent with Transfer-Encoding: chunked
+                ms = [[k, base + 5 * j] for j, k in enumerate(q)]
+                nh = q.count("H")
+                cap = max(1, nh)
+                pre = [["I"]] * max(1, nh)
+                out.append((cap, pre + [["D", ms, fr]] + [["I"], ["D", [["E", 70], ["H", 80]], fr], ["I"], ["D", [["H", 90]]]]))
+                if nh == 1:
+                    out.append((1, [["I"], ["I"], ["D", ms, fr], ["D", [["H", 80]], fr], ["I"], ["D", [["H", 90]]]]))
+                    out.append((1, [["I"], ["F", q.index("H") and 1], ["D", [["H", base]] + ms[q.index("H") + 1:] if q[0] == "H"
+                                                     else [["H", base]], fr], ["I"], ["D", [["E", 70], ["H", 80]], fr]]))
+                if nh == 0:
+                    out.append((1, [["D", ms, fr], ["I"], ["D", [["E", 75], ["H", 80]], fr], ["D", [["E", 95]], fr]]))
+    return out
+
+
+def gen_timeout_cancel():
+    """a request's 30 s timer and the cancellation of its caller in the same loop turn (timer first), in every
+    position: alone, with a caller queued behind it, after earlier traffic, after a partial response, with two requests
+    written at the same / at different ticks; always followed by a new request and a response (nobody may get it)"""
+    out = []
+    for pre in ([], [["I"], ["D", [["H", 5]]]], [["A", 777]], [["D", [["E", 3]]]]):
+        t = sum(e[1] for e in pre if e[0] == "A")
+        for mid in ([], [["I"]], [["F", 1]], [["A", 4096]], [["D", [["E", 15]]]], [["I"], ["A", 9]]):
+            h = pre + [["I"]] + mid
+            r = sum(1 for e in pre if e[0] == "I")
+            dt = T30 - sum(e[1] for e in mid if e[0] == "A")
+            for post in ([["I"], ["D", [["H", 60]]]], [["D", [["H", 60]]], ["I"]], [["R"], ["I"], ["D", [["H", 60]]]]):
+                out.append((1, h + [["TC", r, dt]] + post))
+    out.append((2, [["I"], ["I"], ["TC", 0, T30], ["I"], ["D", [["H", 60]]]]))
+    out.append((2, [["I"], ["I"], ["TC", 1, T30], ["I"], ["D", [["H", 60]]]]))
+    out.append((2, [["I"], ["A", 50], ["I"], ["I"], ["TC", 0, T30 - 50], ["I"], ["D", [["H", 60]]]]))
+    out.append((3, [["I"], ["I"], ["A", 50], ["I"], ["D", [["H", 10]]], ["TC", 1, T30 - 50], ["D", [["H", 60]]], ["I"]]))
+    return out
+
+
 def gen_random(r, n, maxlen):
     out = []
     for _ in range(n):
@@ -910,9 +1019,10 @@ def gen_random(r, n, maxlen):
                     if r.random() < 0.15:
                         msgs.append(["E", 10 * i + 6 + j])
                 answered += k
-                h.append(["D", msgs])
+                h.append(["D", msgs] + ([r.choice([1, 1, 2, 3])] if r.random() < 0.35 else []))
             elif x < 0.68:
-                h.append(["D", [["E", 10 * i]] + ([["E", 10 * i + 1]] if r.random() < 0.2 else [])])
+                h.append(["D", [["E", 10 * i]] + ([["E", 10 * i + 1]] if r.random() < 0.2 else [])]
+                         + ([r.choice([1, 2, 3])] if r.random() < 0.3 else []))
             elif x < 0.75:
                 h.append(["F", r.randrange(3)] if r.random() < 0.6 else ["F", 0, r.choice([-1, -2, -3, -5, 20, 60, 90])])
             elif x < 0.90:
@@ -985,6 +1095,7 @@ VM_EXAMPLES = [
     ("run 1 122880 I I PE D:H1 I", "w0@0||d0:disc@0,d1:disc@0,x@0||d2:disc@0"),
     ("run 2 122880 I I I D:H1,H2,H3", "w0@0|w1@0||d0:resp1@0,d1:resp2@0,c@0,d2:disc@0,x@0"),
     ("run 1 122880 I I A7 LC I A122880", "w0@0|||d0:disc@7,d1:disc@7,x@7|d2:disc@7|"),
+    ("run 1 122880 I I A122880 C0 I D:H60", "w0@0||d0:tout@122880,d1:disc@122880,x@122880||d2:disc@122880|"),
     ("crun 1 122880 I C0 D:H5 I R I I D:H6 LL PC R R I D:E9,H7",
      "w0@0|d0:canc@0,x@0||d1:disc@0|o@0|w2@0||d2:resp6@0,w3@0||d3:disc@0,x@0|o@0||w4@0|e9@0,d4:resp7@0"),
 ]
@@ -1207,7 +1318,7 @@ def remove_events(hist, idxs):
     for j, e in enumerate(hist):
         if j in idxs:
             continue
-        if e[0] in ("C", "CD"):
+        if e[0] in ("C", "CD", "TC"):
             if e[1] in gone:
                 continue
             out.append([e[0], e[1] - sum(1 for g in gone if g < e[1])] + list(e[2:]))
@@ -1280,6 +1391,8 @@ def run(ctx):
     else:
         streams.append(("directed", list(DIRECTED)))
         streams.append(("chunk-cuts", gen_chunk_cuts()))
+        streams.append(("frames", gen_frames()))
+        streams.append(("timeout-cancel", gen_timeout_cancel()))
         if tier == "quick":
             plan = [(1, 6, False, 3, 1), (2, 5, False, 3, 1)]
         else:
